@@ -12,7 +12,7 @@ PROPERTY = "C17"
 LEVEL = "exploration"
 RULE = (
     "exhaustive: ALL histories of length <=4 (thorough: <=5 on the first cube) over the alphabet {update_dm(v): v in {dm0, "
-    "dm0+-D1, dm0+D2, dm0+D3 (many turns), dm0+d (sub-bin)}} u {update_period(p): p in {p0, p0(1+e1), p0(1-e2), p0(1+tiny), p0(1+E) (hundreds of bins)}} on fixed cubes whose every profile is a "
+    "dm0+-D1, dm0+D2, dm0+D3 (many turns), dm0+d (sub-bin), exactly 0 when dm0 != 0}} u {update_period(p): p in {p0, p0(1+e1), p0(1-e2), p0(1+tiny), p0(1+E) (hundreds of bins)}} on fixed cubes whose every profile is a "
     "permutation of distinct values (so a rotation is identifiable) and whose band/tobs make the shifts non-zero; "
     "random: Hypothesis cubes (nints 1-5, nbands 1-6, nbins 8-64, C / F-ordered / transposed / strided / reversed memory layouts) x histories of <=30 updates with arbitrary targets. "
     "After every step: .dm/.period = last value set; every profile is a rotation of its original; the cube equals a "
@@ -67,6 +67,8 @@ def targets(spec):
     d3 = 150.45 * (p0 / nbins) / (K * span)  # many turns: exposes any dependence of the DM shift on the current period
     d0 = 0.08 * (p0 / nbins) / (K * span)  # sub-bin change: every sub-band shift rounds to zero although dm != dm0
     dms = [dm0, dm0 + d1, dm0 - d1, dm0 + d2, dm0 + d3, dm0 + d0]
+    if dm0 != 0.0:
+        dms.append(0.0)  # an absolute target that is special as a value, not relative to the folding DM: exactly zero
     e3 = 400.3 * p0 / (tobs * nbins)  # hundreds of bins of drift: exposes any dependence on the current period
     ps = [p0, p0 * (1 + e1), p0 * (1 - e2), p0 * (1 + 0.02 * e1), p0 * (1 + e3)]
     return dms, ps
@@ -219,7 +221,7 @@ def strat_random(draw):
             "tsamp": draw(st.sampled_from([1e-3, 64e-6])), "nsamples": draw(st.integers(10**5, 10**7)),
             "p0": draw(st.sampled_from([0.1, 0.0337, 0.5, 0.0123, 1.0])), "dm0": draw(st.sampled_from([0.0, 10.0, 56.7, 300.0])),
             "layout": draw(st.sampled_from(["C", "C", "C", "F", "transposed_view", "strided_view", "reversed_view"]))}
-    ops = draw(st.lists(st.tuples(st.sampled_from(["dm", "p", "dm0", "p0"]), st.floats(-8, 8, allow_nan=False)), min_size=1, max_size=30))
+    ops = draw(st.lists(st.tuples(st.sampled_from(["dm", "dm", "p", "p", "dm0", "p0", "dmz"]), st.floats(-8, 8, allow_nan=False)), min_size=1, max_size=30))
     return {"spec": spec, "ops": [[k, v] for k, v in ops]}
 
 
@@ -238,6 +240,8 @@ def check_random(case, ctx):
             ops.append(("p", spec["p0"] * (1 + v * e1)))
         elif kind == "dm0":
             ops.append(("dm", spec["dm0"]))
+        elif kind == "dmz":
+            ops.append(("dm", 0 if v < 0 else 0.0))  # exactly zero, as a Python int or float
         else:
             ops.append(("p", spec["p0"]))
     return run_history(spec, ops, ("random",))
